@@ -61,6 +61,4 @@ def run(ctx, model_ok):
 
 
 def replay(ctx, data):
-    if data.get("disagreements") or data.get("broken") or "what" in data:
-        return cc.replay_disagreements(ctx, data, "C03")
-    return V.replay_case(ctx, data, "C03")
+    return V.replay_case(ctx, data, "C03")     # failures, disagreements, broken obligations and pinned reproducers alike
